@@ -255,9 +255,14 @@ class B(object):
                 self.dec()
                 # a name that only this walrus binds (w1/w2) or a pool name (c01 only)
                 wn = self.pick(['w1', 'w2']) if self.profile != 'c01' or self.chance(60) else self.pick(POOL)
+                if self.profile == 'c03':
+                    # c03: a name of its own per comprehension, read only inside it (what it is after the comprehension depends on
+                    # whether any trip happened, which supp does not model: kept out of this profile)
+                    self.wcount = getattr(self, 'wcount', 0) + 1
+                    wn = 'w%d' % (10 + self.wcount)
                 cond = self.expr(dict(inner, extra_reads=extra + vars_, bound=[b for b in ctx.get('bound', []) if b != wn]),
                                  depth + 1, tuple(forbid) + (wn,))
-                if (self.profile in ('c01', 'c02') and self.chance(35) and not ctx.get('in_class_direct') and not ctx.get('no_walrus') and wn not in vars_
+                if (self.chance(35) and not ctx.get('in_class_direct') and not ctx.get('no_walrus') and wn not in vars_
                         and wn not in COMP_VARS and wn not in forbid and not ctx.get('in_lambda')):
                     cond = '(%s := %s)' % (wn, cond)
                     self.features.add('walrus-in-comp')
@@ -279,8 +284,14 @@ class B(object):
             elt = self.expr(ictx, depth + 1, forbid)
             if self.chance(60):
                 elt = '(%s, %s)' % (self.pick(vars_), elt)
+        if walrus_names and clauses and ':=' in clauses[-1] and self.chance(60):
+            # the element reads what a condition of the last clause has just bound
+            last = clauses[-1].split(':=')[0].split('(')[-1].strip()
+            if last in walrus_names:
+                elt = '(%s, %s)' % (last, elt)
+                self.features.add('comp-element-reads-condition-walrus')
         self.comp_nest -= 1
-        if walrus_names:
+        if walrus_names and self.profile != 'c03':
             self.bind(ctx, walrus_names * 3)
         if kind == 'dict':
             return '{%s: %s %s}' % (self.pick(vars_), elt, ' '.join(clauses))
